@@ -121,6 +121,8 @@ type CLICase struct {
 	Cmd   string   `json:"cmd"` // validate | format | lint | parse
 	Flags []string `json:"flags"`
 	Files []File   `json:"files"`
+	// Mode: "" = file arguments; "stdin" = the first file's content piped in; "inline" = given as the argument
+	Mode string `json:"mode,omitempty"`
 }
 
 // accepts: the library's verdict on content under the same options.
@@ -225,10 +227,34 @@ func oracleCLI(c CLICase) error {
 	}
 	before := snapshot(dir, c.Files)
 	args := append([]string{c.Cmd}, c.Flags...)
-	args = append(args, names...)
-	r, err := runCmd(dir, "", binPath, args...)
+	stdin := ""
+	switch c.Mode {
+	case "stdin":
+		stdin = c.Files[0].Content
+	case "inline":
+		args = append(args, c.Files[0].Content)
+	default:
+		args = append(args, names...)
+	}
+	r, err := runCmd(dir, stdin, binPath, args...)
 	if err != nil {
 		return fmt.Errorf("HARNESS: %v", err)
+	}
+	if c.Mode != "" {
+		// text given directly: only the verdict is compared
+		f := c.Files[0]
+		if strings.TrimSpace(f.Content) == "" {
+			return nil
+		}
+		ok := accepts(f.Content, flagValue(c.Flags, "--dialect"), has(c.Flags, "--strict"))
+		if c.Cmd == "lint" {
+			return nil // lint of direct text reports under a synthetic name; its verdict is covered by the file mode
+		}
+		if (r.code == 0) != ok {
+			return fmt.Errorf("gosqlx %s %s with the text %q given on %s exits with status %d, but the library %s it\n stderr: %s", c.Cmd, strings.Join(c.Flags, " "), clip(f.Content), c.Mode, r.code,
+				map[bool]string{true: "accepts", false: "rejects"}[ok], clip(r.stderr))
+		}
+		return nil
 	}
 	after := snapshot(dir, c.Files)
 	dialect := flagValue(c.Flags, "--dialect")
@@ -421,7 +447,7 @@ func uniq(xs []string) []string {
 var cliCheck = hx.NewCheck("cli_verdict", oracleCLI)
 
 func genContent(rt *rapid.T) (string, string) {
-	f := sqlgen.AllFeatures()
+	f := sqlgen.FullFeatures()
 	f.MaxDepth = 2
 	switch rapid.IntRange(0, 9).Draw(rt, "content") {
 	case 0, 1, 2, 3:
@@ -504,13 +530,36 @@ func TestCLIVerdict(t *testing.T) {
 			c.Files = c.Files[:1]
 			vec = vec[:1]
 		}
+		if (c.Cmd == "validate" || c.Cmd == "parse" || c.Cmd == "format") && rapid.IntRange(0, 3).Draw(rt, "direct") == 0 {
+			c.Mode = rapid.SampledFrom([]string{"stdin", "inline"}).Draw(rt, "mode")
+			c.Files, vec = c.Files[:1], vec[:1]
+			var keep []string
+			for i := 0; i < len(c.Flags); i++ { // flags that only make sense with files are dropped
+				switch c.Flags[i] {
+				case "-i", "--check":
+				case "--output-file":
+					i++
+				default:
+					keep = append(keep, c.Flags[i])
+				}
+			}
+			c.Flags = keep
+			// inline SQL is told from a file name by its first word (the documented form starts with a
+			// statement keyword); anything else can only be given through a file or stdin
+			if first := c.Files[0].Content; c.Mode == "inline" && (first == "" || !(first[0] >= 'A' && first[0] <= 'Z' || first[0] >= 'a' && first[0] <= 'z')) {
+				c.Mode = "stdin"
+			}
+			if c.Mode == "stdin" && c.Files[0].Content == "" {
+				c.Mode = ""
+			}
+		}
 		mixed := false
 		for _, v := range vec {
 			if v == "corrupted" || v == "stray_semicolons" || v == "mysql_only" {
 				mixed = true
 			}
 		}
-		hx.Case("cli_verdict", mixed && len(vec) > 1, c.Cmd+strings.Join(c.Flags, " ")+strings.Join(vec, ","), "cmd_"+c.Cmd)
+		hx.Case("cli_verdict", mixed && len(vec) > 1 || c.Mode != "", c.Cmd+c.Mode+strings.Join(c.Flags, " ")+strings.Join(vec, ","), "cmd_"+c.Cmd, "mode_"+c.Mode)
 		hx.Sample("cli_verdict", map[string]interface{}{"cmd": c.Cmd, "flags": c.Flags, "files": vec})
 		return c
 	})
